@@ -10,7 +10,7 @@ From ClapModel Require Import ParseProofs.Actions ParseProofs.Unparse ParseProof
 From ClapModel Require Import Base.Utf8 Lex.OsStrExtModel Lex.OsStrExtProofs ParseProofs.UnparseLift.
 From ClapModel Require Import ParseProofs.UnparseX ParseProofs.UnparseXProofs ParseProofs.UnparseXTree ParseProofs.UnparseXExamples.
 From ClapModel Require Import ParseProofs.Globals ParseProofs.UnparseGlobals ParseProofs.Spelling ParseProofs.UnparsePending ParseProofs.UnparseBridge.
-From ClapModel Require Import ParseProofs.Escape ParseProofs.UnparseXTrail ParseProofs.UnparseYTree ParseProofs.UnparseYExamples.
+From ClapModel Require Import ParseProofs.Escape ParseProofs.UnparseXTrail ParseProofs.UnparseYTree ParseProofs.UnparseYExamples ParseProofs.UnparseUser.
 From Coq Require Import ZArith Sorting.Sorted Sorting.Permutation List.
 Import ListNotations.
 Open Scope N_scope.
@@ -695,8 +695,9 @@ Theorem C02_pending_nonvacuous :
 Proof. exact PendOptEx.ex. Qed.
 Print Assumptions C02_pending_nonvacuous.
 
-(** (6) THE BRIDGE from the command as written to the class on the built command -- PARTIAL (ParseProofs/UnparseBridge.v).
-    Full statement (not proved): [forall c0, valid c0 = true -> conventional0 c0 = true ->
+(** (6) THE BRIDGE from the command as written to the class on the built command -- the steps (ParseProofs/UnparseBridge.v);
+    the assembly is [C02_bridge] / [C02_bridge_conventional0] below (fourth pass).
+    Full statement (third pass: not proved; now [C02_bridge_conventional0]): [forall c0, valid c0 = true -> conventional0 c0 = true ->
     low_index_multiple (build_self c0) = false -> conv (build_self c0) = true].
     Proved, for all commands: [Arg::_build] and the positional-index assignment keep the six per-argument conjuncts of
     [conv] for every declared argument; the settings the class mentions are unchanged by the stages of [_build_self] before
@@ -827,3 +828,60 @@ Theorem C02_unparse_tva_nonvacuous :
     YEx.raw_of [118] m = Some [[[49]]] /\ YEx.idx_of_m [97] m = Some [3; 4; 5; 6; 7].
 Proof. split; [exact YEx.ex_tva_hyps|exact YEx.ex_tva_parse]. Qed.
 Print Assumptions C02_unparse_tva_nonvacuous.
+
+(** (2) THE BRIDGE, COMPLETE (ParseProofs/UnparseBridge.v, UnparseUser.v): from the command AS THE USER WRITES IT to the class
+    of the theorems on the built command, for ALL commands passing the validity gate.
+    [user_conventional c0]: not yet built; none of [subcommand_precedence_over_arg], [allow_missing_positional], command-level
+    [allow_hyphen_values] / [allow_negative_numbers] / [trailing_var_arg]; every declared argument [conv_arg]; no explicit
+    positional index; only the LAST declared positional takes several values / appends (judged after [Arg::_build] has filled in
+    action and value range).  [user_conventionalx]: the same for the lifted class (declared options free of [last]/[trailing_var_arg],
+    declared positionals free of hyphen / negative-number values).
+    The generated [--help] / [--version] flags, [Arg::_build], the index assignment, the deprecated-settings push and the
+    [Built] mark are all covered; the low-index conjunct is DERIVED ([C02_bridge_low_index]: the k-th declared positional gets
+    index k, the number of positional keys is the number of positionals). *)
+Theorem C02_bridge : forall c0, valid c0 = true -> user_conventional c0 = true -> conv (build_self c0) = true.
+Proof. exact conv_of_user. Qed.
+Print Assumptions C02_bridge.
+
+Theorem C02_bridge_x : forall c0, valid c0 = true -> user_conventionalx c0 = true -> convx (build_self c0) = true.
+Proof. exact convx_of_user. Qed.
+Print Assumptions C02_bridge_x.
+
+Theorem C02_bridge_conventional0 : forall c0, valid c0 = true -> conventional0 c0 = true ->
+  low_index_multiple (build_self c0) = false -> conv (build_self c0) = true.
+Proof. exact conv_of_conventional0. Qed.
+Print Assumptions C02_bridge_conventional0.
+
+Theorem C02_bridge_low_index : forall c0, s_built (c_set c0) = false ->
+  is_set s_allow_hyphen c0 = false -> is_set s_allow_negnum c0 = false -> is_set s_tva c0 = false ->
+  no_index (c_args c0) = true -> last_only_multiple (c_args c0) = true ->
+  low_index_multiple (build_self c0) = false.
+Proof. exact low_index_of_user. Qed.
+Print Assumptions C02_bridge_low_index.
+
+(** THE UN-PARSER THEOREM ON THE DEFINITION AS WRITTEN: the class conjunct of the root level is discharged; what is left on the
+    built command is what mentions its lookup tables ([wf_body]: the items, and the class of the children of a tree) *)
+Theorem C02_unparse_user : forall c0 bin i, is_set s_no_binary_name c0 = false -> valid (with_bin c0 bin) = true ->
+  user_conventional c0 = true -> is_set s_ignore_errors c0 = false ->
+  wf_body (build_self (with_bin c0 bin)) i = true ->
+  parse_top c0 (bin :: render_inv i) = finish_outcome (with_bin c0 bin) (run_inv (build_self (with_bin c0 bin)) i).
+Proof. exact parse_top_user. Qed.
+Print Assumptions C02_unparse_user.
+
+Theorem C02_unparse_user_y : forall c0 bin i, is_set s_no_binary_name c0 = false -> valid (with_bin c0 bin) = true ->
+  user_conventionalx c0 = true -> is_set s_ignore_errors c0 = false ->
+  wfy_body (build_self (with_bin c0 bin)) i = true ->
+  parse_top c0 (bin :: render_invy i) = finish_outcome (with_bin c0 bin) (run_invy (build_self (with_bin c0 bin)) i).
+Proof. exact parse_top_user_y. Qed.
+Print Assumptions C02_unparse_user_y.
+
+(** Non-vacuity: the example commands of the earlier passes satisfy the user-level classes as written *)
+Theorem C02_bridge_nonvacuous :
+  user_conventional UnparseEx.c0 = true /\ is_set s_ignore_errors UnparseEx.c0 = false /\
+  wf_body (build_self (with_bin UnparseEx.c0 [112])) (ILeaf UnparseEx.its) = true /\
+  user_conventionalx XEx.c0 = true /\ user_conventional XEx.c0 = false /\
+  wfy_body (build_self (with_bin XEx.c0 XEx.bin)) (of_inv XEx.xinv) = true /\
+  user_conventionalx YEx.t0 = true /\ wfy_body (build_self (with_bin YEx.t0 YEx.bin)) YEx.tinv = true /\
+  user_conventionalx YEx.c0 = false /\ convx YEx.c = true.
+Proof. exact user_examples. Qed.
+Print Assumptions C02_bridge_nonvacuous.
